@@ -243,9 +243,11 @@ def scan_payload(j):
 
 
 def scan_element(payload, out, v):
+    # identity of the pre-emption site = semantic phase of the pre-empted thread (seam calls completed, lock kinds
+    # held), NOT a function name or line: a behaviour-preserving refactoring must not change it
     site = None
-    for frm, fn in out.get("switch_funcs", []):
-        site = fn
+    for ph in out.get("switch_phases", []):
+        site = ph
         break
     exc = sorted({r["exc"] for r in out["history"] if r.get("exc")})
     return (payload["scenario"], payload["direction"], site or "-", v["kind"], ",".join(exc))
